@@ -40,7 +40,7 @@ def own_term_commit(cx):
     cx.check(n >= 2, "floor", "the MsgReadIndex arm registers (Safe) and answers (single voter / lease) reads")
 
 
-@obligation("READ.recorded_index", ["C08"], floor=2, kind="argument source + value shape",
+@obligation("READ.recorded_index", ["C08", "C01", "C04"], floor=2, kind="argument source + value shape",
             why="the index promised to the reader must be the commit index at registration, and the probe must carry that request's context")
 def recorded_index(cx):
     ar = cx.fn("ReadOnly::add_request")
